@@ -134,9 +134,23 @@ fn render(case: &Case) -> (String, Vec<(u32, String)>) {
     let mut body = String::new();
     for (i, (kind, root)) in case.uses.iter().enumerate() {
         let g = format!("g_b{}", i);
+        // the element type of a structured buffer is sometimes qualified (inline or through a typedef): the same struct, the same
+        // layout obligations
+        let variant = (hash_str(root) as usize + i + case.decls.structs.len() + case.decls.enums.len()) % 6;
+        let mut element = root.clone();
+        match (kind, variant) {
+            (UseKind::Structured, 2) => element = format!("const {}", root),
+            (UseKind::Structured, 3) | (UseKind::RwStructured, 3) => element = format!("volatile {}", root),
+            (UseKind::Structured, 4) => {
+                text.push_str(&format!("typedef const {} CElem{};\n", root, i));
+                line += 1;
+                element = format!("CElem{}", i);
+            }
+            _ => {}
+        }
         let (decl, stmt) = match kind {
-            UseKind::Structured => (format!("const StructuredBuffer<{}> {} : register(t{});", root, g, i), format!("const {} v{} = {}.Load(0);", root, i, g)),
-            UseKind::RwStructured => (format!("const RWStructuredBuffer<{}> {} : register(u{});", root, g, i), format!("{}[1] = {}[0];", g, g)),
+            UseKind::Structured => (format!("const StructuredBuffer<{}> {} : register(t{});", element, g, i), format!("const {} v{} = {}.Load(0);", root, i, g)),
+            UseKind::RwStructured => (format!("const RWStructuredBuffer<{}> {} : register(u{});", element, g, i), format!("{}[1] = {}[0];", g, g)),
             UseKind::ByteLoad => (format!("const ByteAddressBuffer {} : register(t{});", g, i), format!("const {} v{} = {}.Load<{}>(0);", root, i, g, root)),
             UseKind::RwByteLoad => (format!("const RWByteAddressBuffer {} : register(u{});", g, i), format!("const {} v{} = {}.Load<{}>(0);", root, i, g, root)),
             UseKind::RwByteStore => (format!("const RWByteAddressBuffer {} : register(u{});", g, i), format!("{} v{}; {}.Store(0, v{});", root, i, g, i)),
